@@ -118,7 +118,10 @@ def check_C11(report, tier, seed):
     # garbage, reset anywhere): same responses from model and implementation, and never a panic
     S.exhaustive(report, "C11", 3 if tier == "quick" else 4)
     S.pubrel_race_family(report, "C11")
-def check_C14(report, tier, seed): engine_check("C14", report, tier, seed, snap_after_svc=True)
+def check_C14(report, tier, seed):
+    import suites_engine as S
+    engine_check("C14", report, tier, seed, snap_after_svc=True)
+    S.ping_behind_large_publish_family(report, "C14")
 def check_C15(report, tier, seed): engine_check("C15", report, tier, seed)
 def check_C18(report, tier, seed): engine_check("C18", report, tier, seed)
 
